@@ -127,8 +127,12 @@ def check_phase(dag, pname, method, pipelines, info, envs, split=None):
             # hand-written style guards: the builder's flags replaced by the comparisons that define them
             from pymbolic import substitute
             from pymbolic.primitives import Variable
+            # (not when the defining comparison calls a user function: a derived statement that
+            # "carries the guard" re-evaluates it, which would repeat the call by construction)
             defs = {s_.assignee: s_.rhs for s_ in seq
-                    if type(s_).__name__ == "Assign" and s_.assignee.startswith("<cond>") and not s_.assignee_subscript}
+                    if type(s_).__name__ == "Assign" and s_.assignee.startswith("<cond>") and not s_.assignee_subscript
+                    and not any(str(v).startswith("<func>")
+                                for v in T.variables(T.from_pymbolic(s_.rhs), include_functions=True))}
             sub = {Variable(n): e for n, e in defs.items()}
             seq = [s_.copy(condition=substitute(s_.condition, sub))
                    if getattr(s_, "condition", True) is not True and sub else s_ for s_ in seq]
